@@ -101,6 +101,25 @@ Theorem C06_unmarshal : forall (Msg : Type) (enc : Msg -> list Z) (dec : list Z 
 Proof. exact Unmarshal_frame. Qed.
 Print Assumptions C06_unmarshal.
 
+(** widening: a version that ends in NULs (or is empty / all NULs) is outside the
+    property's statement; what the code does with it is determined all the same: the
+    version comes back without its trailing NULs, everything else is unchanged *)
+Theorem C06_unmarshal_anyver : forall (Msg : Type) (enc : Msg -> list Z) (dec : list Z -> option Msg) grow,
+  (forall c, 0 < c -> c < grow c) ->
+  forall m ver rest cs t fuel,
+  dec (enc m) = Some m ->
+  zlen ver <= 16 ->
+  bytes_ok ver -> bytes_ok (enc m) -> bytes_ok rest ->
+  chunks_ok cs -> concat cs = frame ver (enc m) ++ rest -> zlen (concat cs) < 2 ^ 63 ->
+  term_ok t (enc m) rest ->
+  (length (concat cs) + 2 <= fuel)%nat ->
+  exists cs',
+    Unmarshal dec cread grow fuel (cs, t)
+      = Some (32 + zlen (enc m), strip_nul ver, None, Some m, (cs', t))
+    /\ concat cs' = rest /\ chunks_ok cs'.
+Proof. exact Unmarshal_frame_anyver. Qed.
+Print Assumptions C06_unmarshal_anyver.
+
 (** the two body codecs of the harness meet the premises of the generic theorems:
     kind 0 = raw legacy Marshal/Unmarshal message, kind 1 = wrappers.BytesValue *)
 Theorem C06_codec_roundtrip : forall kind p,
